@@ -144,7 +144,9 @@ func c02b(c *Ctx) {
 		}
 	}
 	c.Check(found, "var-compare/site", c.W.FuncPos(fn), "compare line present", "no compare line is written")
-	if v, ok := c.W.Pkgs["ast"].Types.Scope().Lookup("StrictValueComparison").(interface{ Val() interface{ String() string } }); ok {
+	if v, ok := c.W.Pkgs["ast"].Types.Scope().Lookup("StrictValueComparison").(interface {
+		Val() interface{ String() string }
+	}); ok {
 		_ = v
 	}
 	// domain: operators accepted by the parser = arms
@@ -404,14 +406,24 @@ func c02e(c *Ctx) {
 		use := lastUse(lb)
 		pos := c.W.Pos(lb.Pos())
 		c.Check(hasLit(c.mustLits(fn, lb.Block()), "+assert<*ast.OperatorExpression>($0)#1"), name+"/leaf/guard", pos, "leaf branch built for operator expressions", "leaf branch built without the operator-expression type test")
-		c.Check(c.fieldAtUse(fn, lb, "truthyDest", use) == "emitter.createConditionDestination($2,"+leafA+")", name+"/leaf/truthy->success", pos, "leaf true -> success chunk, comparing this leaf", "leaf truthy destination is "+c.fieldAtUse(fn, lb, "truthyDest", use)+", expected createConditionDestination(successChunkID, leaf)")
+		// truthyDest: a conditionDestination{id: success, operatorExpression: leaf}, built in place or by a constructor helper
+		var tdVal ssa.Value
+		for _, ref := range *lb.Referrers() {
+			if fa, ok := ref.(*ssa.FieldAddr); ok && fieldName(fa.X.Type(), fa.Field) == "truthyDest" {
+				for _, r2 := range *fa.Referrers() {
+					if st, ok := r2.(*ssa.Store); ok && st.Addr == ssa.Value(fa) {
+						tdVal = st.Val
+					}
+				}
+			}
+		}
+		tdf := map[string]string{}
+		if tdVal != nil {
+			tdf = c.valueFields(fn, tdVal, use)
+		}
+		c.Check(tdf["id"] == "$2" && tdf["operatorExpression"] == leafA, name+"/leaf/truthy->success", pos, "leaf true -> success chunk, comparing this leaf", fmt.Sprintf("leaf truthy destination is %v, expected {id: successChunkID, operatorExpression: the leaf}", tdf))
 		c.Check(c.fieldAtUse(fn, lb, "falseyReturnID", use) == "$3", name+"/leaf/falsey->failure", pos, "leaf false -> failure chunk", "leaf falsey destination is "+c.fieldAtUse(fn, lb, "falseyReturnID", use)+", expected failureChunkID")
 		c.Check(c.fieldAtUse(fn, lb, "preambleStatement", use) == leafA+".PreambleStatement", name+"/leaf/preamble", pos, "leaf carries its own preamble statement", "leaf preamble is "+c.fieldAtUse(fn, lb, "preambleStatement", use))
-		if cd := c.Fn("emitter.createConditionDestination"); cd != nil {
-			as := allocsOf(cd, "emitter", "conditionDestination")
-			ok := len(as) == 1 && c.fieldAtUse(cd, as[0], "id", lastUse(as[0])) == "$0" && c.fieldAtUse(cd, as[0], "operatorExpression", lastUse(as[0])) == "$1"
-			c.Check(ok, "createConditionDestination/fields", c.W.FuncPos(cd), "destination = (id, expression) as given", "createConditionDestination does not store (id, operatorExpression) from its arguments")
-		}
 		// the leaf chunk is returned as entry, first id threaded
 		for _, r := range returnsOf(fn) {
 			if !hasLit(c.mustLits(fn, r.Block()), "+assert<*ast.OperatorExpression>($0)#1") {
